@@ -36,6 +36,8 @@ def run_scenario(binary, hooks, scen):
         for a in scen["actions"]:
             if w.dead or not srv.alive():
                 break
+            if a[0] in ("act", "end", "half_complete", "half_probe") and a[1] not in w.clients:
+                break  # the scripted actor is gone (the step that lost it has been judged): the script ends here
             apply_action(w, a)
         return [dict(rule=v.rule, props=list(v.props), signature=v.signature, detail=v.detail)
                 for v in w.violations], None
@@ -184,6 +186,37 @@ def big_scenario(n_users=45, n_chans=35):
     acts.append(["act", 1, {"verb": "KICK", "chan": "#big", "users": nicks[20:30], "comment": "ten at once"}])
     acts.append(["act", 1, {"verb": "NAMES", "chans": ["#big"]}])
     acts.append(["act", 1, {"verb": "LUSERS"}])
+    return {"engine": "e1", "variant": {"preconf": False}, "actions": acts}
+
+
+def long_names_scenario():
+    """nicknames of 150 and channel names of 600 characters (within the advertised NICKLEN / CHANNELLEN): reply lines
+    whose lists are chunked by count grow to several thousand bytes and must still carry every member and channel"""
+    acts = []
+    nicks = ["L%02d" % i + "n" * 147 for i in range(22)]
+    chan = "#" + "w" * 590
+    for i, n in enumerate(nicks):
+        acts.append(["connect", {"nick": n, "user": "lu%d" % (i % 5), "multi_prefix": i % 2 == 0}])
+    for i in range(len(nicks) - 1):
+        acts.append(["act", i + 1, {"verb": "JOIN", "chans": [chan]}])
+    acts.append(["act", 1, {"verb": "MODE", "target": chan, "modes": [["+ov", [nicks[3], nicks[4]]]]}])
+    for viewer in (1, 2, len(nicks)):
+        acts.append(["act", viewer, {"verb": "NAMES", "chans": [chan]}])
+        acts.append(["act", viewer, {"verb": "WHO", "mask": chan}])
+    acts.append(["act", 2, {"verb": "ISON", "nicks": nicks[:12]}])
+    acts.append(["act", 2, {"verb": "USERHOST", "nicks": nicks[6:18]}])
+    many = ["#%02d" % i + "c" * 600 for i in range(7)]
+    acts.append(["act", 5, {"verb": "JOIN", "chans": many[:3]}])
+    acts.append(["act", 5, {"verb": "JOIN", "chans": many[3:6]}])
+    acts.append(["act", 5, {"verb": "JOIN", "chans": many[6:]}])
+    acts.append(["act", 1, {"verb": "WHOIS", "masks": [nicks[4]]}])
+    acts.append(["act", 5, {"verb": "WHOIS", "masks": [nicks[4]]}])
+    acts.append(["act", 6, {"verb": "PART", "chans": [chan]}])
+    acts.append(["act", 1, {"verb": "KICK", "chan": chan, "users": nicks[7:10], "comment": "three long ones"}])
+    acts.append(["act", 9, {"verb": "NICK", "nick": "M" + "m" * 149}])
+    acts.append(["act", 2, {"verb": "NAMES", "chans": [chan]}])
+    acts.append(["act", 2, {"verb": "LIST", "chans": []}])
+    acts.append(["act", len(nicks), {"verb": "JOIN", "chans": [chan]}])
     return {"engine": "e1", "variant": {"preconf": False}, "actions": acts}
 
 
@@ -429,7 +462,8 @@ def run_generic(ctx, res, skip=()):
     the property it belongs to."""
     binary, hooks = ctx.binary()
     for name, scen in (("big", big_scenario), ("ranks", rank_matrix_scenario), ("twins", case_twin_scenario),
-                       ("prefixtwins", prefix_twin_scenario), ("whowas", whowas_scenario)):
+                       ("prefixtwins", prefix_twin_scenario), ("whowas", whowas_scenario),
+                       ("longnames", long_names_scenario)):
         if name in skip or (ctx.prop, name) in _GENERIC_DONE:
             continue
         _GENERIC_DONE.add((ctx.prop, name))
